@@ -46,7 +46,7 @@ type Profile struct {
 	// RSFaults: probability that a replica-set create/delete issued by the ExtendedDaemonSet controller is
 	// rejected or applied with its answer lost
 	RSFaults float64
-	// Big: a cluster of 25-64 nodes with budgets, ramps and canary sizes that only bite at that scale
+	// Big: a cluster of 25-104 nodes with budgets, ramps and canary sizes that only bite at that scale
 	Big bool
 	// ReadFaults: probability that a list issued by a controller (replica sets, settings, pods, nodes) is
 	// rejected; the reconcile has to give up rather than act on what it could not read
@@ -249,7 +249,7 @@ func (e *Sim) Run(ctx *core.Ctx, idx int) {
 	}
 	nNodes := 2 + r.Intn(maxN-1)
 	if e.P.Big {
-		nNodes = 25 + r.Intn(40)
+		nNodes = 25 + r.Intn(80)
 	}
 	for i := 0; i < nNodes; i++ {
 		w.AddNode(genNode(r, fmt.Sprintf("n%d", i)))
